@@ -271,18 +271,38 @@ def _feasible_by_guess(pc, inputs, tries=6):
     from . import spec
     rng = random.Random(12345)
     facs = [(k, e) for k, e in inputs.items() if k.endswith("#fac") and z3.is_app(e) and e.decl().name().startswith("fac_")]
+    # ... and every other unit-factor application in the formula (units held in the abstract STATE are not inputs)
+    have = {e.get_id() for _, e in facs}
+    seen, stack = set(), list(pc)
+    while stack:
+        e = stack.pop()
+        if e.get_id() in seen:
+            continue
+        seen.add(e.get_id())
+        if z3.is_app(e):
+            if e.decl().kind() == z3.Z3_OP_UNINTERPRETED and e.decl().name().startswith("fac_") and e.num_args() == 1 \
+                    and e.get_id() not in have and not z3.is_int_value(e.arg(0)):
+                have.add(e.get_id())
+                facs.append((f"state#{len(facs)}", e))
+            stack.extend(e.children())
     ints = [(k, e) for k, e in inputs.items() if not k.endswith("#fac") and z3.is_expr(e) and e.sort() == z3.IntSort() and not k.startswith("u_")]
-    for t in range(tries + 2):
+    for t in range(tries + 4):
         s = z3.Solver()
         s.set("timeout", 30000 if t < 2 or t >= tries else 10000)     # idle: 0.1 - 4 s when satisfiable; generous, only failing clauses get here
         s.add(*pc)
         for k, e in facs:
+            if k.startswith("state#") and t < 2:
+                continue          # the first two trials fix the units of the INPUTS only (as before)
             vals = sorted(set(v for u, v in spec.SI_TABLE.get(e.decl().name()[4:], {}).items() if u not in ("Ndm", "Ncm", "Nmm")))
             if not vals:
                 continue
+            if t >= tries + 2:
+                # last two trials: every unit factor ranges over the factors of the real units (a finite case split for the solver)
+                s.add(z3.Or(*[e == z3.RealVal(f"{v.numerator}/{v.denominator}") for v in vals]))
+                continue
             v = 1 if (t % 2 == 0 and 1 in vals) else rng.choice(vals)
             s.add(e == z3.RealVal(f"{v.numerator}/{v.denominator}") if hasattr(v, "numerator") else e == v)
-        if t < tries:           # the last two trials leave the integer inputs free
+        if t < tries or t == tries + 2:           # trials tries, tries+1 and tries+3 leave the integer inputs free
             for k, e in ints:
                 s.add(e == rng.choice((10, 12, 20, 30, 1, 2, 17) if t else (20, 12)))
         try:
@@ -290,6 +310,48 @@ def _feasible_by_guess(pc, inputs, tries=6):
                 return s.model()
         except z3.Z3Exception:
             pass
+    return None
+
+
+def refute_with_hint(pc, goal, facts, inputs, timeout_ms=20000):
+    """A cut (facts |- goal) failed.  Its counter-model (of facts and not goal) is only a HINT; a refutation of the obligation
+    needs a model of the whole path condition and not goal.  The hint's values for the atoms of the cut are imposed on the
+    full query -- most nonlinear terms become ground, so the solver answers quickly; sat => a genuine counter-model."""
+    t0 = time.time()
+    try:
+        s1 = z3.Solver()
+        s1.set("timeout", 5000)
+        s1.add(*facts)
+        s1.add(z3.Not(goal))
+        if s1.check() != z3.sat:
+            return None
+        m1 = s1.model()
+        atoms = {}
+        stack = list(facts) + [goal]
+        seen = set()
+        while stack:
+            e = stack.pop()
+            if e.get_id() in seen:
+                continue
+            seen.add(e.get_id())
+            if z3.is_app(e):
+                if e.decl().kind() == z3.Z3_OP_UNINTERPRETED and e.sort().kind() in (z3.Z3_INT_SORT, z3.Z3_REAL_SORT, z3.Z3_BOOL_SORT):
+                    atoms[e.get_id()] = e
+                stack.extend(e.children())
+        for attempt in (0, 1):
+            s2 = z3.Solver()
+            s2.set("timeout", timeout_ms)
+            s2.add(*pc)
+            s2.add(z3.Not(goal))
+            for a in atoms.values():
+                if attempt == 1 and a.num_args() == 0 and a.sort().kind() != z3.Z3_BOOL_SORT and not str(a).startswith(("k!", "h")):
+                    continue          # second attempt: impose only the applications (unit factors ...), leave the plain variables free
+                s2.add(a == m1.eval(a, model_completion=True))
+            if s2.check() == z3.sat:
+                return dict(status="refuted", backend="z3-5.1(api, cut counter-model as hint)", time_s=time.time() - t0,
+                            model=model_dict(s2.model(), inputs), units_realizable=False)
+    except z3.Z3Exception:
+        return None
     return None
 
 
